@@ -95,7 +95,7 @@ def floors(tier):
     q = tier == "quick"
     return {"schedules.single": 3000 if q else 100000, "points.in_shared_write_code": 300 if q else 5000, "b_ran_inside_a": 3000, "points.line": 2000,
             "points.instruction": 300, "shared_writers_discovered": 1, "nested.reentries": 200, "stress.runs": 200, "stress.overlapping_compiles": 1,
-            "nested.budget_documents": 4, "nested.link_hook": 50, "schedules.double": 100 if q else 5000, "schedules.pingpong": 1000 if q else 50000, "pingpong.a_parked_in_shared_write_code": 300}
+            "nested.budget_documents": 2, "nested.link_hook": 50, "schedules.double": 100 if q else 5000, "schedules.pingpong": 1000 if q else 50000, "pingpong.a_parked_in_shared_write_code": 300}
 
 
 _used = {}
